@@ -1,8 +1,15 @@
 (* C04 — Lines fit the width, are greedily filled, and truncation is honoured.  Property theorems only.
-   Proved: soundness of the fit classification and the truncation bookkeeping of postProcessLine.  The greedy clause is
-   FALSE of the faithful model (Findings/Wrap.v: f7_refuted) and the width clause is false on the truncated line
-   (f8_width_refuted); the global width_bound needs the breaker ordering invariant and is covered by the oracle only. *)
-From TV Require Import Model.Wrap Spec.Wrap Proofs.Wrap.
+   Proved: soundness of the fit classification, the truncation bookkeeping of postProcessLine, and truncation_lines: with
+   TruncateAfterLines = k >= 1 at most k lines are returned (any number of WrapNextLine calls with any widths, and
+   WrapParagraph).  The greedy clause is FALSE of the faithful model (Findings/Wrap.v: f7_refuted) and the width clause is
+   false on the truncated line (f8_width_refuted).
+   NOT proved (oracle check_width_truncation only): the global width_bound.  What is missing: (1) an invariant through
+   both loops recording, for the best line, the classification it was recorded under (fits / endLine: measured width <=
+   maxWidth by candidate_classification_sound_partial; cannotFit: single unbreakable unit; truncated: finding F8), and
+   (2) the relation between the width measured at candidate time (advanceSpaceAware + the Advance fields of the runs already
+   collected) and Spec/Wrap.v line_measure on the returned store, which fails through aliasing (F6: stale Advance of whole
+   runs, glyphs trimmed by later candidates) and through F7/F37 (fallback skipping options). *)
+From TV Require Import Model.Wrap Spec.Wrap Proofs.Wrap Proofs.WrapLines Proofs.WrapTrunc.
 
 (* Whenever processBreakOption classifies a candidate, the classification agrees with the measured width
    (advanceSpaceAware of the candidate + advance of the runs already on the line, rounded up): fits / endLine
@@ -33,3 +40,29 @@ Example classification_example :
   let w := prepare (w_zero st) cfg_zero [4; 4; 7] [mkOut 128 0 0 2 0 0 2 0] 0 0 in
   exists w' c, process_break_option w (1, false) (mkLC false 1 0) = Ok (w', CannotFit, c) /\ cand_width w' c = 2.
 Proof. vm_compute. eexists _, _. split; reflexivity. Qed.
+
+(* truncation_lines: Prepare with TruncateAfterLines = k >= 1 on any contiguous run list covering [0,n), n >= 1, followed
+   by ANY number of WrapNextLine calls with ANY widths: at most k of the calls return a (non-nil) line.  (nlines counts
+   the results whose line is not nil; nil lines returned while live — finding F37 — still consume the counter.) *)
+Theorem truncation_lines : forall n w cfg attrs runs widths w' rs,
+  runs_ok runs n -> zlen attrs - 1 = n -> 1 <= n -> 1 <= c_trunc cfg ->
+  run_calls (prepare w cfg attrs runs 0 0) widths = Ok (w', rs) ->
+  nlines rs <= c_trunc cfg.
+Proof. exact truncation_lines_calls. Qed.
+Print Assumptions truncation_lines.
+
+(* ... and WrapParagraph returns at most k lines *)
+Theorem truncation_lines_paragraph : forall n w cfg attrs runs mw w' ls tr,
+  runs_ok runs n -> zlen attrs - 1 = n -> 1 <= n -> 1 <= c_trunc cfg ->
+  wrap_paragraph w cfg mw attrs runs = Ok (w', ls, tr) -> zlen ls <= c_trunc cfg.
+Proof. exact truncation_lines_par. Qed.
+Print Assumptions truncation_lines_paragraph.
+
+(* non-vacuity: "a a b" at width 1 would take three lines; with TruncateAfterLines = 2 two lines come back, Truncated = 1 *)
+Example truncation_lines_example :
+  let st := [[mkGlyph 0 1 1 64 64 0 0 0; mkGlyph 1 1 1 64 64 0 0 0]; [mkGlyph 2 1 1 64 64 0 0 0]; []] in
+  let runs := [mkOut 128 0 0 2 0 0 2 0; mkOut 64 0 2 1 1 0 1 0] in
+  let cfg := mkCfg 0 2 (mkOut 0 0 0 0 2 0 0 0) false 0 false in
+  runs_ok runs 3 /\ 1 <= c_trunc cfg
+  /\ exists w' ls, wrap_paragraph (w_zero st) cfg 1 [4; 5; 5; 7] runs = Ok (w', ls, 1) /\ zlen ls = 2.
+Proof. split; [split; [reflexivity|repeat constructor]|]. split; [cbn; lia|]. vm_compute. eexists _, _. split; reflexivity. Qed.
